@@ -350,7 +350,10 @@ class Outcome:
             self.notes.append("inconclusive engine: " + j["reason"])
             return
         if j.get("crash"):
-            self.failures.append({"sig": "process-crash:signal-%d" % j["signal"], "api": j["sub"], "input": j["last_case"], "got": "process killed by signal %d while monitoring" % j["signal"],
+            tail = j.get("stderr_tail", "")
+            # stack or heap exhaustion (an unbounded loop or recursion) is a functional failure, not memory unsafety
+            kind = "resource-exhaustion-crash" if ("has overflowed its stack" in tail or "memory allocation of" in tail) else "process-crash"
+            self.failures.append({"sig": "%s:signal-%d" % (kind, j["signal"]), "api": j["sub"], "input": j["last_case"], "got": "process killed by signal %d while monitoring" % j["signal"],
                                   "want": "the workload runs to completion", "engine": j["engine"], "variant": j["variant"], "sub": j["sub"], "cmd": j["cmd"], "detail": j.get("stderr_tail", "")})
             return
         eng = "%s:%s" % (j.get("engine", "native"), j.get("variant", "?"))
